@@ -132,7 +132,9 @@ def groupByNode (cs : List (String × String)) : List (String × List String) :=
   nodes.map fun n => (n, (cs.filter (·.2 == n)).map (·.1))
 
 inductive Op where
-  | create (nf : NodeFilter) (rollback : List String)  -- pods of the filter; on failure one pod lock per rolled-back node
+  | create (nf : NodeFilter) (rollback : List String) (deployed : List String)
+      -- pods of the filter; then per node that got workloads a remap goroutine (node-operation lock,
+      -- after the pod locks are released); on failure one pod lock per rolled-back node
   | capacity (nf : NodeFilter)                          -- CalculateCapacity
   | removePod (pod : String)
   | nodeLocked (node : String)                          -- SetNode, RemoveNode, NodeResource(fix)
@@ -148,8 +150,9 @@ inductive Op where
 
 /-- the lock episodes of an operation -/
 def episodes (w : World) : Op → List Trace
-  | .create nf rollback =>
-    withNodesPodLocked w nf (fun _ => []) :: rollback.map fun n => withNodePodLocked w n []
+  | .create nf rollback deployed =>
+    withNodesPodLocked w nf (fun _ => []) ::
+      ((deployed.map fun n => withNodeOperationLocked w n []) ++ rollback.map fun n => withNodePodLocked w n [])
   | .capacity nf => [withNodesPodLocked w nf fun _ => []]
   | .removePod pod => [withNodesPodLocked w { podname := pod, includes := [], excludes := [], labels := [], all := true } fun _ => []]
   | .nodeLocked node => [withNodePodLocked w node []]
